@@ -166,10 +166,27 @@ def generate(rng, spec, adversarial_names=False, tries=60):
             genproblems.NAME_POOL_OBJ = old_pool
         if adversarial_names:
             used = set()
-            for a in gen.actions:
-                n = rng.choice([x for x in ADVERSARIAL_ACT if x not in used and not gen.problem.has_name(x)])
+            order = list(gen.actions)
+            rng.shuffle(order)          # which action gets the base name and which the suffixed one, before or after
+            prev = None
+            for a in order:
+                cands = [x for x in ADVERSARIAL_ACT if x not in used and not gen.problem.has_name(x)]
+                if prev is not None and rng.random() < 0.6:     # the name another action's variants / groundings get
+                    objn = [o.name for o in gen.problem.all_objects]
+                    sfx = [prev + "_0", prev + "_1", prev + "_0_0"] + [prev + "_" + o for o in objn[:2]]
+                    cands = [x for x in sfx if x not in used and not gen.problem.has_name(x)] or cands
+                n = rng.choice(cands)
                 used.add(n)
                 a.name = n
+                prev = n
+            if rng.random() < 0.5:      # fluents named like the auxiliary fluents of the compilers
+                from unified_planning.model import Fluent
+                tm = gen.env.type_manager
+                pool = ["not_" + f.name for f in gen.fluents] + ["is_value_defined_" + f.name for f in gen.fluents] + \
+                       ["dnf_fake_goal", "not_not_b0", "b0_0"]
+                for nm in rng.sample(pool, 2):
+                    if not gen.problem.has_name(nm):
+                        gen.problem.add_fluent(Fluent(nm, tm.BoolType(), environment=gen.env), default_initial_value=rng.random() < 0.5)
         if spec["knobs"].get("static_rel") and rng.random() < 0.7:
             static_relation(gen, rng)
         if spec["traj"] and rng.random() < spec["traj"]:
@@ -370,6 +387,11 @@ def corpus(spec_id):
         p.add_action(mv); p.add_action(b)
         p.add_goal(em.And(g, em.Equals(loc, objs[1])))
         out.append(HandGen(p, "utfr-old-value-cleared"))
+    if spec_id == "trajectory-constraints-remover":
+        out += traj_corpus()
+    if spec_id in ("grounder", "negative-conditions-remover", "quantifiers-remover"):
+        out += traj_corpus()[::4]
+    out += suffix_corpus(spec_id)
     if spec_id in ("state-invariants-remover", "bounded-types-remover"):
         # the invariant / the bound must also hold in the LAST state of a plan
         env, tm, em, T, p, objs = base("inv-final-state")
@@ -390,6 +412,274 @@ def corpus(spec_id):
         p.add_state_invariant(em.Or(f, em.LE(1, x)))
         p.add_goal(em.Equals(x, 0))
         out.append(HandGen(p, "inv-and-bounds"))
+    return out
+
+
+# ---------------------------------------------------------------------------------------------- targeted families
+def _toggle_base(label, inits, env=None):
+    """Boolean fluents named by `inits` (name -> initial value) with an _on and an _off action each"""
+    from unified_planning.environment import Environment
+    from unified_planning.model import Fluent, Problem, InstantaneousAction
+    env = env or Environment()
+    tm, em = env.type_manager, env.expression_manager
+    p = Problem(label, env)
+    fl = {}
+    for n, v in inits.items():
+        f = Fluent(n, tm.BoolType(), environment=env)
+        p.add_fluent(f, default_initial_value=v)
+        fl[n] = em.FluentExp(f)
+        for suffix, val in (("on", True), ("off", False)):
+            a = InstantaneousAction("%s_%s" % (n, suffix), _env=env)
+            a.add_effect(f, val)
+            p.add_action(a)
+    return env, em, p, fl
+
+
+def _compound(em, fl, rng, allow_implies):
+    x, y = rng.sample(sorted(fl), 2)
+    x, y = fl[x], fl[y]
+    forms = [lambda: em.Or(x, y), lambda: em.And(x, em.Not(y)), lambda: em.Not(em.And(x, y)), lambda: em.Not(em.Or(x, em.Not(y))),
+             lambda: em.And(em.Or(x, y), em.Not(em.And(x, y)))]
+    if allow_implies:
+        forms.append(lambda: em.Implies(x, y))
+    return rng.choice(forms)()
+
+
+def _traj(em, kind, phi, psi):
+    return {"always": lambda: em.Always(phi), "sometime": lambda: em.Sometime(phi), "amo": lambda: em.AtMostOnce(phi),
+            "sb": lambda: em.SometimeBefore(phi, psi), "sa": lambda: em.SometimeAfter(phi, psi)}[kind]()
+
+
+def traj_family(rng, n, allow_implies):
+    """every trajectory operator over COMPOUND arguments (and/or/not[/implies]), true or false in the initial state,
+    in problems where every fluent can be toggled, so that plans of 2-3 steps switch an argument off and on again"""
+    out = []
+    for i in range(n):
+        kind = rng.choice(["always", "sometime", "amo", "amo", "sb", "sa"])
+        inits = {"a": rng.random() < 0.5, "b": rng.random() < 0.5, "c": rng.random() < 0.5}
+        env, em, p, fl = _toggle_base("traj-%s-%d" % (kind, i), inits)
+        phi, psi = _compound(em, fl, rng, allow_implies), _compound(em, fl, rng, allow_implies)
+        p.add_trajectory_constraint(_traj(em, kind, phi, psi))
+        g = rng.choice(sorted(fl))
+        p.add_goal(rng.choice([fl[g], em.Not(fl[g]), em.Or(fl[g], em.Not(fl[g]))]))
+        out.append(HandGen(p, "traj-family-%s" % kind))
+    return out
+
+
+def traj_corpus():
+    """deterministic part: each operator with a compound argument that is true / false initially"""
+    import random
+    out = []
+    for kind in ("always", "sometime", "amo", "sb", "sa"):
+        for init in (True, False):
+            env, em, p, fl = _toggle_base("trajc-%s-%s" % (kind, init), {"a": init, "b": False, "c": False})
+            phi = em.Or(fl["a"], fl["b"])                 # true initially iff init
+            psi = em.And(fl["c"], em.Not(fl["b"]))
+            p.add_trajectory_constraint(_traj(em, kind, phi, psi))
+            p.add_goal(em.Or(fl["a"], em.Not(fl["a"])) if kind != "sometime" else fl["c"])
+            out.append(HandGen(p, "traj-compound-%s-%s" % (kind, "true" if init else "false")))
+        env, em, p, fl = _toggle_base("trajc2-%s" % kind, {"a": True, "b": False, "c": False})
+        phi = em.And(fl["a"], em.Not(fl["b"]))
+        psi = em.Not(em.And(fl["a"], fl["c"]))
+        p.add_trajectory_constraint(_traj(em, kind, phi, psi))
+        p.add_goal(fl["a"])
+        out.append(HandGen(p, "traj-compound2-%s" % kind))
+    return out
+
+
+def zero_bound_family(rng, n):
+    """bounded numeric fluents whose lower or upper bound is exactly 0 (int[-3,0], real[-1,0], int[0,2], ...), with
+    increase / decrease / assign actions that can push the fluent past either bound and goals on both sides"""
+    from fractions import Fraction
+    from unified_planning.environment import Environment
+    from unified_planning.model import Fluent, Problem, InstantaneousAction
+    out = []
+    shapes = [("int", -3, 0), ("real", -1, 0), ("int", 0, 2), ("real", 0, Fraction(3, 2)), ("int", -1, 0), ("int", 0, 1),
+              ("int", 0, None), ("int", None, 0), ("real", Fraction(-1, 2), 0), ("int", 0, 0)]
+    for i in range(n):
+        kind, lo, hi = shapes[i % len(shapes)] if i < len(shapes) else rng.choice(shapes)
+        env = Environment()
+        tm, em = env.type_manager, env.expression_manager
+        p = Problem("zb-%d" % i, env)
+        ty = tm.IntType(lo, hi) if kind == "int" else tm.RealType(lo, hi)
+        x = Fluent("x", ty, environment=env)
+        init = rng.choice([v for v in (lo, hi, 0) if v is not None])
+        p.add_fluent(x, default_initial_value=init)
+        g = Fluent("g", tm.BoolType(), environment=env)
+        p.add_fluent(g, default_initial_value=False)
+        step = 1 if kind == "int" else rng.choice([1, Fraction(1, 2)])
+        # a constant amount outside the fluent's own type is rejected by add_increase_effect (int[1,1] vs int[-3,0]),
+        # so the amount is read from a static unbounded fluent
+        k = Fluent("k", tm.IntType() if kind == "int" else tm.RealType(), environment=env)
+        p.add_fluent(k, default_initial_value=step)
+        inc = InstantaneousAction("inc", _env=env); inc.add_increase_effect(x, k)
+        dec = InstantaneousAction("dec", _env=env); dec.add_decrease_effect(x, k)
+        mark = InstantaneousAction("mark", _env=env); mark.add_effect(g, True)
+        for a in (inc, dec, mark):
+            p.add_action(a)
+        if rng.random() < 0.4:
+            st = InstantaneousAction("jump", _env=env)
+            if rng.random() < 0.5:
+                st.add_increase_effect(x, em.Plus(k, k))
+            else:
+                st.add_decrease_effect(x, em.Plus(k, k))
+            p.add_action(st)
+        r = rng.random()
+        if r < 0.35:
+            p.add_goal(g)                                   # any executable plan ending with g
+        elif r < 0.6 and hi is not None:
+            p.add_goal(em.LE(hi + step, x))                 # only beyond the upper bound
+        elif r < 0.8 and lo is not None:
+            p.add_goal(em.LE(x, lo - step))                 # only beyond the lower bound
+        else:
+            p.add_goal(em.And(g, em.Equals(x, init)))
+        out.append(HandGen(p, "zero-bound-%s[%s,%s]" % (kind, lo, hi)))
+    return out
+
+
+def graph_family(rng, n):
+    """static BINARY relation (asymmetric: a one-way map, usually with a sink) used at both argument positions by
+    different actions; grounding with pruning on must keep every grounding a valid plan needs"""
+    from collections import OrderedDict
+    from unified_planning.environment import Environment
+    from unified_planning.model import Fluent, Object, Problem, InstantaneousAction
+    out = []
+    for i in range(n):
+        env = Environment()
+        tm, em = env.type_manager, env.expression_manager
+        T = tm.UserType("Loc")
+        p = Problem("graph-%d" % i, env)
+        k = rng.choice([3, 3, 4])
+        objs = [Object(nm, T, env) for nm in rng.sample(["n1", "n2", "n3", "n_4", "n1_n2"], k)]
+        p.add_objects(objs)
+        link = Fluent("link", tm.BoolType(), OrderedDict([("x", T), ("y", T)]), env)
+        at = Fluent("at", tm.BoolType(), OrderedDict([("x", T)]), env)
+        dflt = rng.choice([False, False, None])
+        if dflt is None:
+            p.add_fluent(link)
+        else:
+            p.add_fluent(link, default_initial_value=False)
+        p.add_fluent(at, default_initial_value=False)
+        order = list(range(k))
+        rng.shuffle(order)
+        edges = set((order[j], order[j + 1]) for j in range(k - 1))        # one-way chain, last node is a sink
+        if rng.random() < 0.4:
+            edges.add((order[rng.randrange(k)], order[rng.randrange(k)]))
+        edges = set((u, v) for u, v in edges if u != v)
+        for u in range(k):
+            for v in range(k):
+                if (u, v) in edges:
+                    p.set_initial_value(link(objs[u], objs[v]), True)
+                elif dflt is None:
+                    p.set_initial_value(link(objs[u], objs[v]), False)
+        p.set_initial_value(at(objs[order[0]]), True)
+        mv = InstantaneousAction("move", OrderedDict([("x", T), ("y", T)]), env)
+        mv.add_precondition(at(mv.parameter("x")))
+        mv.add_precondition(link(mv.parameter("x"), mv.parameter("y")))
+        mv.add_effect(at(mv.parameter("x")), False)
+        mv.add_effect(at(mv.parameter("y")), True)
+        p.add_action(mv)
+        if rng.random() < 0.7:      # the same relation read at the swapped positions
+            bk = InstantaneousAction("pull", OrderedDict([("x", T), ("y", T)]), env)
+            bk.add_precondition(at(bk.parameter("y")))
+            bk.add_precondition(link(bk.parameter("y"), bk.parameter("x")))
+            bk.add_effect(at(bk.parameter("x")), True)
+            p.add_action(bk)
+        p.add_goal(at(objs[order[min(2, k - 1)]]))
+        out.append(HandGen(p, "static-binary-relation"))
+    return out
+
+
+def suffix_corpus(spec_id):
+    """action / fluent names that equal the names a compiler generates for OTHER elements (variant suffixes _0, _1,
+    not_<fluent>, is_value_defined_<fluent>, grounded names), declared before and after the element they clash with"""
+    from collections import OrderedDict
+    from unified_planning.environment import Environment
+    from unified_planning.model import Fluent, Object, Problem, InstantaneousAction
+    out = []
+
+    def mk(label, order):
+        env = Environment()
+        tm, em = env.type_manager, env.expression_manager
+        T = tm.UserType("T")
+        p = Problem(label, env)
+        o = [Object(nm, T, env) for nm in ("0", "a", "a_0")]
+        p.add_objects(o)
+        c, d, g = (Fluent(nm, tm.BoolType(), environment=env) for nm in ("cc", "dd", "gg"))
+        x = Fluent("xx", tm.IntType(), environment=env)
+        q = Fluent("q", tm.BoolType(), OrderedDict([("t", T)]), env)
+        for f in (c, d, g):
+            p.add_fluent(f, default_initial_value=False)
+        p.add_fluent(q, default_initial_value=False)
+        if spec_id == "undefined-initial-numeric-remover":
+            p.add_fluent(x)
+            p.add_fluent(Fluent("is_value_defined_xx", tm.BoolType(), environment=env), default_initial_value=True)
+        else:
+            p.add_fluent(x, default_initial_value=0)
+        if "negative" in spec_id:
+            p.add_fluent(Fluent("not_cc", tm.BoolType(), environment=env), default_initial_value=True)
+        load = InstantaneousAction("load", OrderedDict([("t", T)]), env)      # conditional, disjunctive, negative, quantified
+        load.add_precondition(em.Or(em.Not(c), d))
+        load.add_effect(g, True, em.Not(c))
+        load.add_effect(x, 1)
+        load.add_effect(q(load.parameter("t")), True)
+        others = {}
+        for nm in ("load_0", "load_1", "load_a", "load_a_0"):
+            a = InstantaneousAction(nm, _env=env)
+            a.add_effect(c, em.Not(c))
+            others[nm] = a
+        chosen = [others[n] for n in order if n != "load"]
+        acts = []
+        for n in order:
+            acts.append(load if n == "load" else others[n])
+        for a in acts:
+            p.add_action(a)
+        p.add_goal(em.And(g, em.Equals(x, 1)))
+        return HandGen(p, label)
+
+    out.append(mk("suffix-clash-declared-after", ["load", "load_0", "load_1", "load_a"]))
+    out.append(mk("suffix-clash-declared-before", ["load_0", "load_a", "load_a_0", "load"]))
+    return out
+
+
+def temporal_family(rng, n):
+    """durative actions over objects whose names join to the same string (new_york + city / new + york_city), plus an
+    instantaneous action; only compiled and checked for well-formedness (C08) - the planning semantics of this
+    framework is sequential"""
+    from collections import OrderedDict
+    from unified_planning.environment import Environment
+    from unified_planning.model import Fluent, Object, Problem, InstantaneousAction, DurativeAction, StartTiming, EndTiming
+    out = []
+    pools = [["new_york", "city", "new", "york_city"], ["a_b", "c", "a", "b_c"], ["x", "x_0", "0", "x_0_0"], ["A", "a", "a_", "_a"]]
+    for i in range(n):
+        env = Environment()
+        tm, em = env.type_manager, env.expression_manager
+        T = tm.UserType("Place")
+        p = Problem("temporal-%d" % i, env)
+        names = pools[i % len(pools)] if i < len(pools) else rng.choice(pools)
+        names = list(names)
+        rng.shuffle(names)
+        objs = [Object(nm, T, env) for nm in names]
+        p.add_objects(objs)
+        at = Fluent("at", tm.BoolType(), OrderedDict([("x", T)]), env)
+        busy = Fluent("busy", tm.BoolType(), environment=env)
+        p.add_fluent(at, default_initial_value=False)
+        p.add_fluent(busy, default_initial_value=False)
+        p.set_initial_value(at(objs[0]), True)
+        fly = DurativeAction(rng.choice(["fly", "fly_0", "go"]), OrderedDict([("x", T), ("y", T)]), env)
+        fly.set_fixed_duration(rng.randint(1, 3))
+        fly.add_condition(StartTiming(), at(fly.parameter("x")))
+        fly.add_effect(StartTiming(), at(fly.parameter("x")), False)
+        fly.add_effect(EndTiming(), at(fly.parameter("y")), True)
+        if rng.random() < 0.5:
+            fly.add_effect(EndTiming(), busy, True, em.Not(busy))
+        p.add_action(fly)
+        if rng.random() < 0.6:
+            hop = InstantaneousAction(fly.name + "_" + names[0], _env=env)      # equals a prefix of the grounded names
+            hop.add_effect(busy, False)
+            p.add_action(hop)
+        p.add_goal(at(objs[-1]))
+        out.append(HandGen(p, "temporal-adversarial-names"))
     return out
 
 
@@ -667,7 +957,30 @@ def build_cases(ctx, per_compiler, max_insts, adversarial=0.0, only=None):
     for spec in compiler_specs():
         if only and spec["id"] not in only:
             continue
+        comp1 = spec["make"]()
+        comp1 = comp1._compilers[0] if spec["pipeline"] else comp1
         for g in corpus(spec["id"]):
+            if not comp1.supports(g.problem.kind):
+                stats["corpus_outside_kind"] = stats.get("corpus_outside_kind", 0) + 1
+                continue
+            cases.append(Case(len(cases), spec, g).run(max(max_insts, 40)))
+        fam = []
+        nf = max(3, per_compiler // 4)
+        if spec["id"] == "trajectory-constraints-remover":
+            fam += traj_family(rng, 2 * nf, allow_implies=False)
+        if spec["id"] in ("grounder", "negative-conditions-remover", "quantifiers-remover", "bounded-types-remover",
+                          "state-invariants-remover", "usertype-fluents-remover"):
+            fam += traj_family(rng, max(2, nf // 2), allow_implies=True)
+        if spec["id"] == "bounded-types-remover":
+            fam += zero_bound_family(rng, 10 + nf)
+        if spec["id"] in ("grounder", "pipeline:grounder+negative-conditions"):
+            fam += graph_family(rng, nf)
+        comp0 = spec["make"]()
+        comp0 = comp0._compilers[0] if spec["pipeline"] else comp0
+        fam = [g for g in fam if comp0.supports(g.problem.kind)]
+        for g in fam:
+            stats["generated"] += 1
+            stats["family"] = stats.get("family", 0) + 1
             cases.append(Case(len(cases), spec, g).run(max(max_insts, 40)))
         for _ in range(per_compiler):
             gen = generate(rng, spec, adversarial_names=rng.random() < adversarial)
